@@ -162,6 +162,10 @@ func newEnv(c *Case, use mask) *env {
 	if use&sMS != 0 {
 		e.ms = make([]map[int]int, 2, 2+c.SpareA)
 		e.ms[0], e.ms[1] = mapOf(c.A), mapOf(c.B)
+		if len(c.B) == 0 {
+			// a nil record: a helper that "normalises" it into an empty map writes into the caller's collection
+			e.ms[1] = nil
+		}
 		full := e.ms[:cap(e.ms)]
 		for i := 2; i < len(full); i++ {
 			full[i] = map[int]int{-5000 - i: -5000 - i}
@@ -1297,6 +1301,14 @@ func typedRun[T comparable](c TypedCase, name string, mk func(int) T, sentinel T
 			flipped(append([]T(nil), b...)...)
 			if got := fmt.Sprint(r1); got != s1 {
 				return fmt.Errorf("the result of the first call of a flipped function read %s and reads %s after two more calls", s1, got)
+			}
+			// an existing slice spread into the call (flipped(xs...)) is an argument like any other: a function that copies its
+			// arguments into a result of its own is flipped here, so nothing may write into xs (a, with its spare capacity,
+			// is compared by the caller of this function) and calling it again on the same slice gives the same result
+			copying := gogu.Flip(func(args ...T) []T { return append(make([]T, 0, len(args)), args...) })
+			c1 := fmt.Sprint(copying(a...))
+			if c2 := fmt.Sprint(copying(a...)); c2 != c1 {
+				return fmt.Errorf("a flipped function called twice on the same spread slice returned %s and then %s", c1, c2)
 			}
 			return nil
 		}
